@@ -916,3 +916,7 @@ for _p, _stage, _extra in (("C12", "c12", {}), ("C13", "c13", dict(abort_is_viol
         _d = dict(name=f"{_stage}-{_prof}-dudect", kind="vh", stage=_stage, profile=_prof, features="dudect")
         _d.update(_extra)
         PLANS[_p]["stages"].append(_d)
+
+# C12 once more on a harness whose rand_core has its std feature (feature unification gives the crate the
+# same rand_core): generator errors may then be boxed std errors without a numeric code
+PLANS["C12"]["stages"].append(dict(name="c12-release-rngstd", kind="vh", stage="c12", profile="release", features="rngstd"))
